@@ -101,10 +101,17 @@ def workdir(name):
     return d
 
 
+MEM_BUDGET_BYTES = 8 << 30
+CRASH_SIGNALS = (-signal.SIGABRT, -signal.SIGSEGV, -signal.SIGBUS, -signal.SIGILL, -signal.SIGFPE)
+
+
 def _limit_cpu(seconds):
     def f():
         resource.setrlimit(resource.RLIMIT_CPU, (int(seconds), int(seconds) + 5))
         resource.setrlimit(resource.RLIMIT_CORE, (0, 0))
+        # memory budget: a translation that asks for more than this fails its allocation and aborts (observed as a crash of that
+        # job) instead of taking the machine down; ordinary jobs need well below 1 % of it
+        resource.setrlimit(resource.RLIMIT_AS, (MEM_BUDGET_BYTES, MEM_BUDGET_BYTES))
     return f
 
 
@@ -114,6 +121,7 @@ class ShardOutcome:
         self.cpu_violations = []  # ids whose translation exceeded the CPU budget
         self.cpu_in_parser = []   # subset: UiDocument::parse alone exceeds the budget (time is spent in the tree-sitter call)
         self.inconclusive = []    # (id, why)
+        self.crashes = []         # (id, status, stderr tail): the job alone killed the process with a crash signal (also in inconclusive)
 
 
 def _run_jobs_file(subcmd, jobs, tag, extra_args, cpu_limit, wall_limit):
@@ -177,7 +185,7 @@ def run_harness(subcmd, jobs, extra_args=(), shards=None, results_per_job=None, 
     def run_chunk(k):
         chunk = chunks[k]
         res_by_id = {}
-        cpu_viol, inconc, in_parser = [], [], []
+        cpu_viol, inconc, in_parser, crashes = [], [], [], []
         pos = 0
         attempt = 0
         while pos < len(chunk):
@@ -218,12 +226,17 @@ def run_harness(subcmd, jobs, extra_args=(), shards=None, results_per_job=None, 
                     if s3 in (-signal.SIGXCPU, -signal.SIGKILL):
                         in_parser.append(culprit["id"])
             else:
+                if s2 in CRASH_SIGNALS:
+                    # the job killed the process again when run alone: a crash of the code under test (abort on a failed
+                    # allocation, stack overflow ...); C07 judges it, for every other check the job has no verdict
+                    crashes.append((culprit["id"], s2, (e2 or "")[-500:]))
                 inconc.append((culprit["id"], "qvh died with status %r: %s" % (s2, (e2 or "")[-500:])))
             pos += done + 1
-        return res_by_id, cpu_viol, inconc, in_parser
+        return res_by_id, cpu_viol, inconc, in_parser, crashes
 
     with ThreadPoolExecutor(max_workers=shards) as ex:
-        for res_by_id, cpu_viol, inconc, in_parser in ex.map(run_chunk, range(shards)):
+        for res_by_id, cpu_viol, inconc, in_parser, crashes in ex.map(run_chunk, range(shards)):
+            out.crashes.extend(crashes)
             out.results.update(res_by_id)
             out.cpu_violations.extend(cpu_viol)
             out.cpu_in_parser.extend(in_parser)
